@@ -121,7 +121,7 @@ fn history(rng: &mut Rng, ninputs: usize, x: &[f64], f32: bool) -> (Program, Pro
 
 fn check_type<T: ProgTy>(tname: &str, ctx: &Ctx, shard: usize, nshards: usize, tindex: u64) -> Acc {
     let mut acc = Acc::new();
-    let ncases = ctx.n(600, 30000);
+    let ncases = ctx.n(600, 300000);
     for ci in 0..ncases {
         if ci % nshards as u64 != shard as u64 {
             continue;
